@@ -162,6 +162,13 @@ class FortranAST:
         ech : int
             End character
         """
+        # The columns come from the statement's text, which may be joined from
+        # continuation lines: keep the range inside the line it is reported on
+        line_text = self.file.get_line(ln - 1) if self.file is not None else None
+        if line_text is not None:
+            sch = min(sch, len(line_text))
+            if ech is not None:
+                ech = min(ech, len(line_text))
         # Convert from Editor line numbers 1-base index to LSP index which is 0-based
         self.parse_errors.append(diagnostic_json(ln - 1, sch, ln - 1, ech, msg, sev))
 
